@@ -118,10 +118,18 @@ pub fn rand_layers_cfg(rng: &mut Rng, hostile: bool, shared_only: bool) -> Layer
                 pairs.push((from, to));
             }
         }
-        let layer = Layer::new(*num, name).add_pairs(&pairs).expect("layer pairs");
+        // hostile sets: one layer in three is created by number only (as imported layers are) and then given two names in the public name
+        // index (the PDK's and the LEF's): it has no name of its own
+        let by_number_only = hostile && rng.chance(1, 3);
+        let layer = if by_number_only { Layer::from_pairs(*num, &pairs).expect("layer pairs") } else { Layer::new(*num, name.clone()).add_pairs(&pairs).expect("layer pairs") };
         let all_pairs = pairs.clone();
         let pairs = base;
         let key = layers.add(layer);
+        if by_number_only {
+            layers.names.insert(name.clone(), key);
+            layers.names.insert(format!("M_{}", name), key);
+            layers.names.insert(format!("{}.drawing", name), key);
+        }
         registered.push((key, all_pairs));
         let usable: Vec<(LayerPurpose, i16)> = pairs.iter().filter(|(_, p)| *p != LayerPurpose::Label).map(|(n, p)| (p.clone(), *n)).collect();
         table.push((key, *num, usable));
